@@ -241,7 +241,7 @@ func vfC13Case(t *testing.T, rt *rapid.T, rec *kit.Rec, test string, open bool) 
 		"put1": put, "put2": put, "put3": put, "put4": put, "put5": put,
 		"del1": del, "del2": del,
 		"userChans1": userChans, "userChans2": userChans,
-		"userRoles": userRoles,
+		"userRoles":  userRoles,
 		"roleChans1": roleChans, "roleChans2": roleChans,
 		"pull1": pull, "pull2": pull, "pull3": pull,
 	}
@@ -310,4 +310,3 @@ func TestVerif_C13_Open(t *testing.T) {
 	defer SuspendSequenceBatching()()
 	rapid.Check(t, func(rt *rapid.T) { vfC13Case(t, rt, rec, "Open", true) })
 }
-
